@@ -145,6 +145,31 @@ def w_literal(case, opts):
     return {"res": out}
 
 
+def w_memory(case, opts):
+    """Peak heap growth (tracemalloc) while constructing a pattern at the bare API: the compile budget bounds the program, so the
+    memory needed to refuse a count of 3*10^7 must not differ from the memory needed to refuse 10^6."""
+    import tracemalloc
+    from microjs.regex import RegExp
+    out = []
+    for p in case["pats"]:
+        tracemalloc.start()
+        res = "ok"
+        try:
+            RegExp(p, "")
+        except MemoryError:
+            res = "MemoryError"
+        except Exception as e:
+            res = type(e).__name__
+        peak = tracemalloc.get_traced_memory()[1]
+        tracemalloc.stop()
+        out.append([res, peak])
+    return {"res": out}
+
+
+MEM_SHAPES = ["a{%d}", "[0-9a-f]{%d}", "(?:ab){%d}", "\\d{%d,}", "(a){%d}", "(?:(?:a{200}){200}){%d}", ".{%d}x", "a{%d}{2}", "(?:a|b){%d}", "\\1(a){%d}", "(?=a{%d})", "a{0,%d}", "(?:a{%d}){3}"]
+MEM_COUNTS = [1000000, 8000000, 30000000]
+
+
 def w_family(case, opts):
     """Catastrophic family on a subject of given length, with/without a virtual time limit, hook counting."""
     from vf import engine as E
@@ -242,6 +267,7 @@ def main(ctx):
                       timeout=600, single_timeout=120)
         lres = ep.map({"mod": "checks.C10", "fn": "w_literal"}, [{"srcs": lits[i:i + 100]} for i in range(0, len(lits), 100)], batch=1, timeout=600)
         fres = ep.map({"mod": "checks.C10", "fn": "w_family"}, fam, batch=2, timeout=1800, single_timeout=900)
+        mres = ep.map({"mod": "checks.C10", "fn": "w_memory"}, [{"pats": [sh % n for n in MEM_COUNTS]} for sh in MEM_SHAPES], batch=1, timeout=900)
     finally:
         ep.close()
     accepted = rejected = 0
@@ -330,6 +356,20 @@ def main(ctx):
             continue
         ctx.violation(("family", prob.split(":")[0][:50], c["pattern"], c["usen"]), {"case": {k: (v if k != "subject" else v[:40] + "...") for k, v in c.items()},
                                                                                        "subject_len": L, "problem": prob, "observed": r})
+    mem_checked = 0
+    for sh, r in zip(MEM_SHAPES, mres):
+        ctx.count()
+        if not r or "res" not in r:
+            ctx.violation(("construct-memory", "worker died", sh), {"shape": sh, "detail": r, "monitor": "tracemalloc around RegExp construction"})
+            continue
+        peaks = [x[1] for x in r["res"]]
+        mem_checked += 1
+        if any(x[0] == "MemoryError" for x in r["res"]) or peaks[-1] > 2 * peaks[0] + (8 << 20):
+            ctx.violation(("construct-memory", "grows with the count", sh), {"shape": sh, "counts": MEM_COUNTS, "outcomes_and_peak_bytes": r["res"],
+                                                                              "monitor": "tracemalloc peak while constructing; refusal must cost the same for every count"})
+        else:
+            ctx.nontrivial(("mem", sh))
+    ctx.cov["construct_memory_shapes_checked"] = mem_checked
     if accepted == 0 or rejected == 0:
         ctx.inconclusive_because("pattern workload did not produce both accepted and rejected patterns")
     ctx.cov["rule"] = ("pattern strings: random over the regex metacharacter vocabulary, single-character mutations/truncations of valid "
